@@ -27,6 +27,14 @@ def systems(rng, n):
         dim = rng.randint(1, 4)
         method = rng.choice(["newton", "secant"])
         A = [[(rng.choice([-1, 1]) * rng.randint(8, 16) / 4.0) if i == j else rng.randint(-2, 2) / 4.0 for j in range(dim)] for i in range(dim)]
+        shape = rng.random()
+        if dim >= 2 and shape < 0.25:
+            # strongly non-symmetric, well conditioned: a rotation-like block / a shear
+            A = [[0.0] * dim for _ in range(dim)]
+            for i in range(dim):
+                A[i][(i + 1) % dim] = rng.choice([-1.0, 1.0]) * rng.randint(4, 8) / 4.0      # cyclic permutation matrix, scaled
+        elif dim >= 2 and shape < 0.45:
+            A = [[(1.0 if i == j else (rng.randint(4, 16) / 4.0 if j > i else 0.0)) for j in range(dim)] for i in range(dim)]   # upper shear
         scale = rng.choice([0.0, 1.0, 1.0, 1000.0])
         r = [scale * rng.uniform(-1, 1) if scale else 0.0 for _ in range(dim)]
         eps = rng.choice([0.0, 0.1])
@@ -83,7 +91,16 @@ def polys(rng, n):
         coefs = expand(roots)
         lead = rng.choice([1.0, 2.0, -0.5])
         coefs = [c * lead for c in coefs]
-        target = rng.choice(roots)
+        conj_case = (not cx) and rng.random() < 0.35 and deg >= 2
+        if conj_case:
+            # real-coefficient polynomial with a conjugate pair, solved in complex arithmetic from a start on the
+            # vertical line through the pair (the Newton step is then purely imaginary)
+            pair = complex(rng.uniform(-2, 2), rng.uniform(0.5, 2.5))
+            others = [r for r in roots if abs(r - pair) >= 0.5 and abs(r - pair.conjugate()) >= 0.5][: deg - 2]
+            roots = [pair, pair.conjugate()] + others
+            coefs = expand(roots)
+            cx = True
+        target = roots[0] if conj_case else rng.choice(roots)
         sep = min([abs(target - w) for w in roots if w != target] or [2.0])
         method = rng.choice(["newton_polynomial", "muller_polynomial"])
         tol = 10.0 ** (-rng.uniform(4, 10))
@@ -92,8 +109,14 @@ def polys(rng, n):
             d = f * sep * rng.random()
             return target + (cmath.rect(d, ang) if cx else complex(d * rng.choice([-1, 1]), 0))
         regular = True
+        if conj_case:
+            method = "newton_polynomial"
         if method == "newton_polynomial":
-            start = [near(0.15)]
+            # Newton converges to a simple root z from |z0 - z| < d / (2n - 1), d = distance to the nearest other root
+            safe = 0.9 / (2 * len(roots) - 1) if len(roots) > 1 else 0.5
+            start = [near(safe)]
+            if conj_case:
+                start = [target + complex(0, rng.choice([-1, 1]) * safe * sep * rng.uniform(0.5, 1.0))]
             if rng.random() < 0.1:
                 start = [target]               # exactly on the root
         else:
